@@ -46,6 +46,8 @@ type Case struct {
 	Input  []byte
 	Family string
 	Name   string
+	Aux    []byte `json:",omitempty"` // reuse oracle: document B, decoded between the two decodes of Input
+	Reuse  string `json:",omitempty"` // reuse oracle: variant (reuse.go)
 }
 
 // Line is the replayable form of a case: "c05x.run <format> <opts> <schedule> x<hex input>", or, for
@@ -54,6 +56,9 @@ func (c Case) Line() string {
 	o := c.Opts
 	head := fmt.Sprintf("%s %s%s%s%s%d,%s,%s %s,%d,%d,%s", c.Format, b01(o.Offsets), b01(o.Base), b01(o.Lax), b01(o.Loader), o.Profile, orDash(o.Mode), orDash(o.Dir),
 		c.Sched.Chunk, c.Sched.Seed, c.Sched.FaultAt, orDash(c.Sched.Fault))
+	if c.Reuse != "" {
+		return "c05x.reuse " + head + " " + c.Reuse + " " + vh.X(c.Input) + " " + vh.X(c.Aux)
+	}
 	if (c.Family == "nest" || c.Family == "huge") && len(c.Input) > 4096 && !strings.Contains(c.Name, " ") {
 		return "c05x.gen " + head + " " + c.Family + ":" + c.Name
 	}
@@ -103,10 +108,20 @@ func unDash(s string) string {
 
 func parseLine(l string) (Case, bool) {
 	f := strings.Fields(l)
+	var reuseV string
+	var reuseB []byte
+	if len(f) == 7 && f[0] == "c05x.reuse" { // c05x.reuse <format> <opts> <sched> <variant> x<A> x<B>
+		b, err := vh.UnX(f[6])
+		if err != nil {
+			return Case{}, false
+		}
+		reuseV, reuseB = f[4], b
+		f = []string{"c05x.run", f[1], f[2], f[3], f[5]}
+	}
 	if len(f) != 5 || (f[0] != "c05x.run" && f[0] != "c05x.gen") {
 		return Case{}, false
 	}
-	c := Case{Format: f[1], Family: "replay", Name: "replay"}
+	c := Case{Format: f[1], Family: "replay", Name: "replay", Reuse: reuseV, Aux: reuseB}
 	op := strings.Split(f[2], ",")
 	if len(op) != 3 || len(op[0]) != 5 {
 		return Case{}, false
@@ -354,7 +369,7 @@ func main() {
 		return
 	}
 	seed := vh.SeedFromEnv()
-	rule := "search over decoders without a Lean model: W3C suite files shipped in the repository, test-file literals and round-0 witnesses x decoder options x read schedules; token-level mutations (<=3 edits from a per-format hot alphabet), grammar-directed nesting, huge tokens, truncations, injected reader faults (on a Read of their own or together with the last bytes; at every offset of the trailing trivia and at len(doc)); deterministic grammar-directed families: RDF/XML attribute x value x spelling x host element error paths with offsets on/off, RDFa/Microdata token-list attributes x separator characters, reference cliques (k mutually referencing items), documents starting with a multi-byte character under tiny first reads; growth oracle (allocation + statement counts over a parameter ladder, exponent <= 4) besides the watchdog. non-trivial = the run yielded at least one statement or ended in an error other than at the first token (C05/C06); the base document yields a statement (C15)"
+	rule := "search over decoders without a Lean model: W3C suite files shipped in the repository, test-file literals and round-0 witnesses x decoder options x read schedules; token-level mutations (<=3 edits from a per-format hot alphabet), grammar-directed nesting, huge tokens, truncations, injected reader faults (on a Read of their own or together with the last bytes; at every offset of the trailing trivia and at len(doc)); deterministic grammar-directed families: RDF/XML attribute x value x spelling x host element error paths with offsets on/off, RDFa/Microdata token-list attributes x separator characters, reference cliques (k mutually referencing items), documents starting with a multi-byte character under tiny first reads, JSON-LD container maps (17 container kinds x 38 entry values incl. null / {\"@value\":null} / [] / scalars / nodes x map keys x entry position x coercion) and map-order documents (21 recursion sites x 12 order-sensitive constructs of 12 entries) through jsonld, htmljsonld and the combined HTML decoder; C15 additionally: determinism = k decodes of every base document (k = 2; 4 quick / 8 thorough when it has container maps, @nest or @reverse) compared as ordered sequences, and the REUSE oracle = option values / turtle.Factory / rdfio registry built once, documents A, B, A decoded with them, run 1 of A = run 3 of A = A with fresh option values and B = B with fresh option values (directive pairs re-declaring default prefixes, base, expand-context terms + random suite pairs); growth oracle (allocation + statement counts over a parameter ladder, exponent <= 4) besides the watchdog. non-trivial = the run yielded at least one statement or ended in an error other than at the first token (C05/C06); the base document yields a statement (C15)"
 	rep := vh.NewReport(*prop, *tier, seed, rule)
 	fs, err := vh.LoadFindings(*findings)
 	if err != nil {
@@ -399,6 +414,7 @@ func main() {
 		}
 		if propSelected("C15") {
 			e.runSchedules()
+			e.runReuse()
 			ran = true
 		}
 		if !ran {
@@ -466,6 +482,8 @@ func (e *engine) replayFile(path string) {
 				}
 				c.Name = gen
 				emit(job{Kind: jobGrowth, C: c, Ladder: ladder, Verbose: true})
+			} else if c.Reuse != "" {
+				emit(job{Kind: jobReuse, C: c, Verbose: true})
 			} else if propSelected("C15") {
 				emit(job{Kind: jobSchedule, C: c, Seed: e.rng.U64(), Thorough: e.thorough, Verbose: true})
 			} else {
